@@ -140,7 +140,13 @@ def extract_liquid(
     to extract messages from an existing template bound to an existing
     environment.
     """
-    template = parse(fileobj.read())
+    source = fileobj.read()
+    if isinstance(source, bytes):
+        # Babel opens the files it extracts from in binary mode.
+        encoding = (options or {}).get("encoding", "utf-8")
+        source = source.decode(str(encoding))
+
+    template = parse(source)
     return extract_from_template(
         template=template,
         keywords=keywords,
